@@ -66,6 +66,9 @@ func cmdGetInfo() {
 func cmdTables() {
 	w := bufio.NewWriter(os.Stdout)
 	defer w.Flush()
+	if len(os.Args) > 2 && os.Args[2] == "after-use" {
+		useEverything()
+	}
 	var keys []string
 	for k := range allArches {
 		keys = append(keys, k)
@@ -274,3 +277,65 @@ func cmdConfig() {
 		}
 	})
 }
+
+// useEverything puts the module's packages to work on the architecture records before the tables are dumped: name
+// lookups (known, unknown, odd case), compilations (valid and refused) for every record, the profiler's listing parser
+// on the listings given on stdin ("L <record key> <hex text>"). The tables are constants of package arch: none of this
+// may show in them.
+func useEverything() {
+	var keys []string
+	for k := range allArches {
+		keys = append(keys, k)
+	}
+	sort.Strings(keys)
+	for _, s := range []string{"", "amd64", "AMD64", "Arm64", "i386", "x32", "ppc64le", "no-such-arch", "aarch64 "} {
+		func() {
+			defer func() { recover() }()
+			arch.GetInfo(s)
+		}()
+	}
+	for _, k := range keys {
+		ai := allArches[k]
+		var some []string
+		for n := range ai.SyscallNames {
+			some = append(some, n)
+			if len(some) == 5 {
+				break
+			}
+		}
+		for _, names := range [][]string{some, append([]string{"no_such_syscall", "", "READ"}, some...)} {
+			func() {
+				defer func() { recover() }()
+				p := &seccomp.Policy{DefaultAction: seccomp.ActionAllow, Syscalls: []seccomp.SyscallGroup{{Action: seccomp.ActionErrno, Names: names}}}
+				seccomp.SetArchVerif(p, ai)
+				p.Assemble()
+				p.Dump(devNull{})
+			}()
+		}
+	}
+	dir, err := os.MkdirTemp("", "verif-tables-")
+	if err != nil {
+		panic(err)
+	}
+	defer os.RemoveAll(dir)
+	realStderr := os.Stderr
+	devnull, err := os.OpenFile(os.DevNull, os.O_WRONLY, 0)
+	if err != nil {
+		panic(err)
+	}
+	stdinLines(func(line string) {
+		f := strings.Fields(line)
+		if len(f) != 3 || f[0] != "L" || allArches[f[1]] == nil {
+			return
+		}
+		path := dir + "/listing.txt"
+		if err := os.WriteFile(path, []byte(unhexs(f[2])), 0o644); err != nil {
+			panic(err)
+		}
+		extractCase("x", allArches[f[1]], path, devnull, realStderr)
+	})
+}
+
+type devNull struct{}
+
+func (devNull) Write(b []byte) (int, error) { return len(b), nil }
